@@ -31,6 +31,7 @@ F_PREFIX, F_MEM, F_FILE = 1, 2, 4
 SLOT_NAMES = {0: "input", 1: "ppm", 2: "bmp", 3: "png"}
 R_BEGIN, R_LOAD, R_PSUM, R_PDIFF, R_SAVE, R_RT, R_END, R_DONE, R_LEAK = range(9)
 MAXPREFIX = 4096
+TIMEOUT = {"quick": 1500, "thorough": 6 * 3600}  # watchdog per executor process (hang detector, not a budget)
 
 
 class DecodeError(Exception):
@@ -554,6 +555,20 @@ def generate(tier, seed):
                 add(0, fam, fam, name, want, f, both_streams=True)
         if len(variants) > len(dims) * (per_dim_q if quick else per_dim_t):
             raise AssertionError("not every %s variant used" % fam)
+        # tiny images behind a gap that is at least as long as their pixel data, every run, both row orders:
+        # a truncation inside the gap leaves enough bytes after the headers to be mistaken for the raster
+        _, bpp, bitf, _, _, _, _ = variants[0]
+        for (w, h) in ((1, 1), (2, 1), (1, 2), (2, 2)):
+            for td in (False, True):
+                hs = 56 if bitf else 40
+                perm = PERMS[(seed + w + 2 * h) % len(PERMS)] if bitf else None
+                nch = 4 if bitf else 3
+                data = gen_samples(rng, "random", w * h * nch, 8, 255, w, nch)
+                want = Im(w, h, bitf, 8, data)
+                f = write_bmp(rng, want, bpp, bitf, hs, td, 16, perm or (2, 1, 0, 3))
+                add(0, fam, fam, "%s %dx%d hdr=%d %s gap=16%s content=random len=%d" % (
+                    fam, w, h, hs, "top-down" if td else "bottom-up",
+                    (" masks(rgba byte)=%s" % (perm,)) if bitf else "", len(f)), want, f, both_streams=True)
 
     # ---- save cases -------------------------------------------------------------------------
     for cw in (8, 16, 32, 64):
@@ -684,11 +699,13 @@ def _wmod(w):
     return "w%%4=%d" % (w % 4)
 
 
-def run_job(exe, ctx, tag, case_path, ncases, shard, nshards, wrapper=(), extra_args=(), timeout=1500, max_restarts=2,
+def run_job(exe, ctx, tag, case_path, ncases, shard, nshards, wrapper=(), extra_args=(), timeout=None, max_restarts=2,
             variant_env=None):
     """One executor process over its share of one case file; restarted after a crashed case (the
     crashed case is skipped).  Returns (obs path, list of run_shard results)."""
     tier, seed, workdir = ctx["tier"], ctx["seed"], ctx["workdir"]
+    if timeout is None:
+        timeout = TIMEOUT[tier]
     obs = os.path.join(workdir, "%s.%d.obs" % (tag, shard))
     try:
         os.unlink(obs)
@@ -925,7 +942,7 @@ def stage(ctx, st):
     obs_all = []
     for (g, path, sh), (obs, runs) in zip(jobs, done):
         obs_all.append(obs)
-        absorb_runs(res, "c06-" + g, g, runs, 1500)
+        absorb_runs(res, "c06-" + g, g, runs, TIMEOUT[tier])
     t_run = time.time() - t1
     ru1 = resource.getrusage(resource.RUSAGE_CHILDREN)
     cpu_run = (ru1.ru_utime + ru1.ru_stime) - (ru0.ru_utime + ru0.ru_stime)
@@ -1019,7 +1036,7 @@ def _memcheck(ctx):
         jobs.append((g, path, pick))
     wrapper = ["valgrind", "-q", "--error-exitcode=99", "--leak-check=full", "--show-leak-kinds=definite",
                "--errors-for-leak-kinds=definite", "--num-callers=30"]
-    timeout = 1200
+    timeout = 3 * 3600
 
     def one(j):
         g, path, pick = j
@@ -1040,7 +1057,7 @@ def _memcheck(ctx):
         meta = {"stage": "c06-memcheck", "shard": None, "cmd": r["cmd"]}
         errs = parse_memcheck(r["stderr"])
         for k, w in errs:
-            res.violation("%s[%s]" % (k, g), w, "valgrind memcheck over %d small %s files and all their prefixes; first: %s"
+            res.violation(k, w, "valgrind memcheck over %d small %s files and all their prefixes; first: %s"
                           % (len(pick), g, pick[0].name), meta=meta, stderr_tail=driver._tail_for(r["stderr"], w))
         if r["timed_out"]:
             raise driver.Inconclusive("c06 memcheck %s: watchdog fired (timeout %ss); last case: %s" % (g, timeout, r["crumb"]))
